@@ -141,7 +141,18 @@ func runC02(r *Run) {
 				if ws.Panic != "" || ws.Err != nil {
 					row.Note = "Define failed: " + short(ws.Panic, 200) + fmt.Sprint(ws.Err)
 					rows = append(rows, row)
-					r.addViolationDirect("valid proof rejected / circuit not definable", fmt.Sprintf("%s wrapper, %s, configuration %s: Define fails on the honest proof: %s %v", wr, in.Name, cf.name, short(ws.Panic, 200), ws.Err), in, wr)
+					what := fmt.Sprintf("%s wrapper, %s, configuration %s: Define fails on the honest proof: %s %v", wr, in.Name, cf.name, short(ws.Panic, 200), ws.Err)
+					if cf.cap == capNative {
+						// the test engine has no native range checker: confirm on a real builder that offers one
+						g := &gadgetReplay{Kind: "gadget", Gadget: "RangeCheck", Cfg: "native-r1cs", In: []string{"1"}, Expect: "rejected"}
+						if acc, rmsg := runGadgetReplay(g); !acc && strings.Contains(rmsg, "compile") {
+							r.addViolationWithReplay("circuit not definable under the native range checker", what, toMap(g), "real R1CS builder offering a native range checker: "+short(rmsg, 120))
+						} else {
+							r.Infra("%s -- but a range check compiles and accepts under the real native builder (accepted=%v %s)", what, acc, short(rmsg, 60))
+						}
+						continue
+					}
+					r.addViolationDirect("valid proof rejected / circuit not definable", what, in, wr)
 					continue
 				}
 				bad := 0
